@@ -2301,4 +2301,186 @@ theorem modesSub_wild_lhs (k : ModeKind) (b : List String) :
           exact ⟨y, (hmem y).mp (by rw [show k.wildcard.filter (fun y => !b.contains y) = d from rfl, hd]; exact List.mem_cons_self)⟩
       rw [this]; rfl
 
+/-! ### `_group_incompatible_features` -/
+
+def gnames (G : List (String × List Key)) : List String := G.map (·.1)
+
+/-- invariant of the `defaultdict` after the keys `pre` have been inserted -/
+def GroupInv (G : List (String × List Key)) (pre : List Key) : Prop :=
+  (gnames G).Nodup ∧ (∀ e, e ∈ G → e.2 = pre.filter (fun k => k.kind == e.1) ∧ e.2 ≠ []) ∧
+    (∀ k, k ∈ pre → k.kind ∈ gnames G)
+
+theorem filter_snoc (pre : List Key) (k : Key) (s : String) :
+    (pre ++ [k]).filter (fun j => j.kind == s) =
+      pre.filter (fun j => j.kind == s) ++ (if k.kind == s then [k] else []) := by
+  simp [List.filter_append, List.filter_cons]
+
+theorem insertGroup_inv (k : Key) (pre : List Key) :
+    ∀ G, GroupInv G pre → GroupInv (insertGroup k G) (pre ++ [k]) := by
+  intro G
+  induction G generalizing pre with
+  | nil =>
+    rintro ⟨_, _, h3⟩
+    have hpre : pre = [] := by
+      cases pre with
+      | nil => rfl
+      | cons a _ => have := h3 a List.mem_cons_self; simp [gnames] at this
+    subst hpre
+    refine ⟨by simp [insertGroup, gnames], ?_, ?_⟩
+    · intro e he
+      simp [insertGroup] at he; subst he
+      simp
+    · intro j hj; simp at hj; subst hj; simp [insertGroup, gnames]
+  | cons e rest ih =>
+    obtain ⟨s, g⟩ := e
+    rintro ⟨h1, h2, h3⟩
+    have hs : s ∉ gnames rest := (List.nodup_cons.mp h1).1
+    simp only [insertGroup]
+    by_cases hk : s = k.kind
+    · subst hk
+      simp only [beq_self_eq_true, if_true]
+      refine ⟨h1, ?_, ?_⟩
+      · intro e he
+        rcases List.mem_cons.mp he with rfl | he'
+        · obtain ⟨e1, _⟩ := h2 (k.kind, g) List.mem_cons_self
+          simp only at e1 ⊢
+          rw [filter_snoc, ← e1]; simp
+        · obtain ⟨e1, e2⟩ := h2 e (List.mem_cons_of_mem _ he')
+          have hne : ¬ k.kind = e.1 := by
+            intro h; exact hs (by rw [h]; exact List.mem_map.mpr ⟨e, he', rfl⟩)
+          have hb : (k.kind == e.1) = false := by simpa using hne
+          rw [filter_snoc, hb]; simp [e2]; exact e1
+      · intro j hj
+        rcases List.mem_append.mp hj with hj | hj
+        · exact h3 j hj
+        · simp at hj; subst hj; simp [gnames]
+    · have hb : (s == k.kind) = false := by simpa using hk
+      simp only [hb, Bool.false_eq_true, if_false]
+      -- the rest of the dict is the dict of the keys whose kind is not `s`
+      have hrest : GroupInv rest (pre.filter (fun j => !(j.kind == s))) := by
+        refine ⟨(List.nodup_cons.mp h1).2, ?_, ?_⟩
+        · intro e he
+          obtain ⟨e1, e2⟩ := h2 e (List.mem_cons_of_mem _ he)
+          have hne : ¬ e.1 = s := by
+            intro h; exact hs (by rw [← h]; exact List.mem_map.mpr ⟨e, he, rfl⟩)
+          refine ⟨?_, e2⟩
+          rw [e1, List.filter_filter]
+          apply List.filter_congr
+          intro j _
+          by_cases hj : j.kind = e.1
+          · have : ¬ j.kind = s := by rw [hj]; exact hne
+            simp [hj, hne]
+          · simp [hj]
+        · intro j hj
+          obtain ⟨hj1, hj2⟩ := List.mem_filter.mp hj
+          have := h3 j hj1
+          simp only [gnames, List.map_cons, List.mem_cons] at this
+          rcases this with h | h
+          · simp [h] at hj2
+          · exact h
+      have hk' : (k.kind == s) = false := by simpa using (fun h : k.kind = s => hk h.symm)
+      have := ih (pre.filter (fun j => !(j.kind == s))) hrest
+      obtain ⟨i1, i2, i3⟩ := this
+      have hnames : ∀ x, x ∈ gnames (insertGroup k rest) → x = k.kind ∨ x ∈ gnames rest := by
+        intro x hx
+        obtain ⟨e, he, rfl⟩ := List.mem_map.mp hx
+        obtain ⟨e1, e2⟩ := i2 e he
+        obtain ⟨y, hy⟩ := List.exists_mem_of_ne_nil _ e2
+        rw [e1] at hy
+        obtain ⟨hy1, hy2⟩ := List.mem_filter.mp hy
+        have hyk : y.kind = e.1 := by simpa using hy2
+        rcases List.mem_append.mp hy1 with h | h
+        · right
+          have := hrest.2.2 y h
+          rw [hyk] at this; exact this
+        · simp at h; subst h; left; exact hyk.symm
+      refine ⟨?_, ?_, ?_⟩
+      · show (s :: gnames (insertGroup k rest)).Nodup
+        refine List.nodup_cons.mpr ⟨?_, i1⟩
+        intro hm
+        rcases hnames s hm with h | h
+        · exact hk h
+        · exact hs h
+      · intro e he
+        rcases List.mem_cons.mp he with rfl | he'
+        · obtain ⟨e1, e2⟩ := h2 (s, g) List.mem_cons_self
+          simp only at e1 e2 ⊢
+          rw [filter_snoc, hk']; simp [← e1, e2]
+        · obtain ⟨e1, e2⟩ := i2 e he'
+          refine ⟨?_, e2⟩
+          have hne : ¬ e.1 = s := by
+            intro h
+            have : e.1 ∈ gnames (insertGroup k rest) := List.mem_map.mpr ⟨e, he', rfl⟩
+            rcases hnames e.1 this with h' | h'
+            · exact hk (h.symm.trans h')
+            · exact hs (h ▸ h')
+          rw [e1, filter_snoc, filter_snoc, List.filter_filter]
+          congr 1
+          apply List.filter_congr
+          intro j _
+          by_cases hj : j.kind = e.1
+          · have : ¬ j.kind = s := by rw [hj]; exact hne
+            simp [hj, hne]
+          · simp [hj]
+      · intro j hj
+        show j.kind ∈ s :: gnames (insertGroup k rest)
+        by_cases hjs : j.kind = s
+        · simp [hjs]
+        · refine List.mem_cons_of_mem _ (i3 j ?_)
+          rcases List.mem_append.mp hj with h | h
+          · exact List.mem_append_left _ (List.mem_filter.mpr ⟨h, by simpa using hjs⟩)
+          · exact List.mem_append_right _ h
+
+theorem foldl_insertGroup_inv (ks pre : List Key) (G : List (String × List Key)) (h : GroupInv G pre) :
+    GroupInv (ks.foldl (fun acc k => insertGroup k acc) G) (pre ++ ks) := by
+  induction ks generalizing pre G with
+  | nil => simpa using h
+  | cons k ks ih =>
+    simp only [List.foldl_cons]
+    have := ih (pre ++ [k]) (insertGroup k G) (insertGroup_inv k pre G h)
+    simpa using this
+
+theorem groupByKind_inv (keys : List Key) : GroupInv (groupByKind keys) keys := by
+  have := foldl_insertGroup_inv keys [] [] ⟨(by simp [gnames]), (fun e he => by cases he), (fun k hk => by cases hk)⟩
+  simpa [groupByKind] using this
+
+theorem pick_groups (G : List (String × List Key)) (hnd : (gnames G).Nodup)
+    (hk : ∀ e, e ∈ G → ∀ k, k ∈ e.2 → k.kind = e.1) :
+    ∀ t, pickOne t (G.map (fun g => none :: g.2.map some)) →
+      (∀ k, k ∈ t.filterMap id → ∃ e, e ∈ G ∧ k ∈ e.2) ∧
+      (t.filterMap id).Pairwise (fun a b => a.kind ≠ b.kind) := by
+  induction G with
+  | nil => intro t ht; cases t <;> simp_all [pickOne]
+  | cons e rest ih =>
+    intro t ht
+    cases t with
+    | nil => simp [pickOne] at ht
+    | cons a t' =>
+      simp only [List.map_cons, pickOne] at ht
+      obtain ⟨ha, ht'⟩ := ht
+      have hs : e.1 ∉ gnames rest := (List.nodup_cons.mp hnd).1
+      obtain ⟨i1, i2⟩ := ih (List.nodup_cons.mp hnd).2 (fun e' he' => hk e' (List.mem_cons_of_mem _ he')) t' ht'
+      cases a with
+      | none =>
+        simp only [List.filterMap_cons, id]
+        exact ⟨fun k hk' => by obtain ⟨e', he', h⟩ := i1 k hk'; exact ⟨e', List.mem_cons_of_mem _ he', h⟩, i2⟩
+      | some k0 =>
+        have hk0 : k0 ∈ e.2 := by simpa using ha
+        simp only [List.filterMap_cons, id]
+        refine ⟨?_, ?_⟩
+        · intro k hk'
+          rcases List.mem_cons.mp hk' with rfl | hk''
+          · exact ⟨e, List.mem_cons_self, hk0⟩
+          · obtain ⟨e', he', h⟩ := i1 k hk''; exact ⟨e', List.mem_cons_of_mem _ he', h⟩
+        · rw [List.pairwise_cons]
+          refine ⟨?_, i2⟩
+          intro b hb heq
+          obtain ⟨e', he', hbe⟩ := i1 b hb
+          have h1 := hk e List.mem_cons_self k0 hk0
+          have h2 := hk e' (List.mem_cons_of_mem _ he') b hbe
+          apply hs
+          rw [← h1, heq, h2]
+          exact List.mem_map.mpr ⟨e', he', rfl⟩
+
+
 end Pharmpy.C18
